@@ -163,17 +163,34 @@ import sys, json, io, contextlib, hashlib
 import numpy as np
 import pgradd.ThermoChem
 from pgradd.GroupAdd.Library import GroupLibrary
-with contextlib.redirect_stdout(io.StringIO()):
-    lib = GroupLibrary.Load(sys.argv[1])
-out = {}
-for g in lib:
-    ps = lib[g]
-    if 'thermochem' in ps:
-        out[str(g)] = ps['thermochem'].yaml_format()
-uq = lib.uq_contents
-fp = {'groups': out, 'uq': None if not uq else {'descriptors': [str(d) for d in uq['descriptors']], 'mat': hashlib.sha256(np.array(uq['mat']).tobytes()).hexdigest(), 'dof': uq['dof'],
-      'rmse': uq['RMSE'].thermochem.yaml_format()}}
-sys.stderr.write('FP:' + hashlib.sha256(json.dumps(fp, sort_keys=True).encode()).hexdigest() + ':%d' % len(out))
+def fingerprint_of(lib):
+    out = {}
+    for g in lib:
+        ps = lib[g]
+        if 'thermochem' in ps:
+            out[str(g)] = ps['thermochem'].yaml_format()
+    uq = lib.uq_contents
+    sch = lib.scheme
+    scheme = {'patterns': [[p['center_name'], p['periph_name']] for p in sch.patterns], 'remaps': sch.remaps,
+              'other': [d['name'] for d in sch.other_descriptors], 'smiles': [d['name'] for d in sch.smiles_based_descriptors], 'smarts': [d['name'] for d in sch.smarts_based_descriptors]}
+    fp = {'groups': out, 'scheme': scheme, 'uq': None if not uq else {'descriptors': [str(d) for d in uq['descriptors']], 'mat': hashlib.sha256(np.array(uq['mat']).tobytes()).hexdigest(), 'dof': uq['dof'],
+          'rmse': uq['RMSE'].thermochem.yaml_format()}}
+    return hashlib.sha256(json.dumps(fp, sort_keys=True).encode()).hexdigest() + ':%d' % len(out)
+if sys.argv[1] == '--relative-paths-one-process':
+    # every library through the relative path 'library.yaml' from inside its own directory, one after the other in ONE process
+    import os
+    for d in sys.argv[2:]:
+        os.chdir(d)
+        try:
+            with contextlib.redirect_stdout(io.StringIO()):
+                lib = GroupLibrary.Load('library.yaml')
+            sys.stderr.write('FPREL:%s:%s\n' % (os.path.basename(d), fingerprint_of(lib)))
+        except Exception as e:
+            sys.stderr.write('FPREL:%s:FAILED %s\n' % (os.path.basename(d), type(e).__name__))
+else:
+    with contextlib.redirect_stdout(io.StringIO()):
+        lib = GroupLibrary.Load(sys.argv[1])
+    sys.stderr.write('FP:' + fingerprint_of(lib))
 '''
 
 
@@ -207,12 +224,19 @@ def data_libraries(tier, seed):
                 jobs[(name, 'by path')] = ex.submit(fingerprint, os.path.join(source.DATA_DIR, name, 'library.yaml'))
                 jobs[(name, 'relocated (pgradd_DATA_DIR)')] = ex.submit(fingerprint, name, {'pgradd_DATA_DIR': os.path.join(tmp, 'relocated')})
             allfp = {k: f.result() for k, f in jobs.items()}
+        e_ = dict(os.environ)
+        e_.pop('pgradd_DATA_DIR', None)
+        for order in (list(real.LIBS), list(reversed(real.LIBS))):
+            r_ = subprocess.run(['/venv/bin/python', '-c', _FP, '--relative-paths-one-process'] + [os.path.join(source.DATA_DIR, nm) for nm in order], capture_output=True, text=True, env=e_, cwd='/tmp')
+            got = {ln.split(':', 2)[1]: ln.split(':', 2)[2] for ln in r_.stderr.splitlines() if ln.startswith('FPREL:')}
+            for nm in real.LIBS:
+                allfp[(nm, "relative path 'library.yaml' from inside the directory, all libraries in one process (%s first)" % order[0])] = got.get(nm, 'FAILED: no output')
         for name in real.LIBS:
             # three ways of locating the library
             n += 1
             fps = {k[1]: v for k, v in allfp.items() if k[0] == name}
             if len(set(fps.values())) != 1 or any(v.startswith('FAILED') for v in fps.values()):
-                viol.append({'id': name + '-locations', 'input': name, 'observed': fps, 'expected': 'identical contents for the three ways of locating the library'})
+                viol.append({'id': name + '-locations', 'input': name, 'observed': fps, 'expected': 'identical contents (groups, scheme, uncertainty block) for every way of locating the library'})
             lib = real.load(name)
             # every group evaluates to finite plain numbers where it has data
             for g in real.thermo_groups(lib):
